@@ -463,6 +463,9 @@ class FunctionEffects:
                         if hit:
                             rf = self._refine(tgt, n, s)
                             if callw:
+                                # parts attached by attribute / item stores (`f._linear = self._f._linear`) are not definitions of the
+                                # name and survive the flow-sensitive refinement: an in-place `+=` / a callee reaches them
+                                rf = rf | {r for r in al if r.startswith(ELEM)}
                                 rf = rf | {r[len(ELEM):] for r in rf if r.startswith(ELEM)}
                             hit = (rf & roots) | {r for r in rf if r.startswith("<module state")}
                         # a Subscript target of a *matrix* root is a copy -> no alias (expr_alias handles)
